@@ -67,6 +67,18 @@ class CallMixin(object):
                 return res
             if fv.ty is MODULE and fv.items and self.reg.externals.get(fv.items[0]) not in (None, "drop"):
                 return self.call_with_args(self.reg.externals[fv.items[0]], None, e, st)      # a variable holding an external function
+            if isinstance(fv.ty, Opt) and isinstance(fv.ty.elem, U) and fv.ty.elem.name in getattr(self.reg, "callable_sorts", {}):
+                # calling an optional callable: None is not callable (TypeError)
+                if self.in_spec:
+                    if getattr(self, "comp_collect", None) is not None:
+                        self.comp_collect.append(("TypeError", core.ois_none(fv)))      # inside a comprehension / any / all executed as code
+                    return self.call_with_args(self.reg.callable_sorts[fv.ty.elem.name], core.oval(fv), e, st)
+                bad, ok = self.fork(st, core.ois_none(fv), getattr(e, "lineno", None), "none-call")
+                if bad is not None:
+                    self.do_raise(bad, "TypeError")
+                if ok is None:
+                    return []
+                return self.call_with_args(self.reg.callable_sorts[fv.ty.elem.name], core.oval(fv), e, ok)
             cs = getattr(self.reg, "callable_sorts", {}).get(fv.ty.name) if isinstance(fv.ty, U) else None
             if cs is not None:
                 return self.call_with_args(cs, fv, e, st)
